@@ -545,7 +545,8 @@ class History(object):
             # a deep-corrupt share is only examined by the verifier if it belongs to the version being verified;
             # with several versions present the file is unhealthy anyway
             eh = (len(inv) == 1 and len(rec) == 1 and len(inv[rec[0]]) >= V[rec[0]]["N"])
-            if verify and corrupt_seen:
+            deep_seen = any(kind in DEEP_KINDS for (idx, sh), (vid, kind) in self.truth.items() if idx in servers)
+            if verify and deep_seen:
                 eh = False
             readings.append((eh, bool(rec)))
         has_open = any(kind in OPEN_KINDS for (idx, sh), (vid, kind) in self.truth.items() if idx in servers)
@@ -556,6 +557,12 @@ class History(object):
             ck.skip("verify-with-signature-only-damage-left-open")
             return
         exp_healthy, exp_recoverable = readings[0]
+        invalid_seen = any(kind in INVALID_KINDS for (idx, sh), (vid, kind) in self.truth.items() if idx in servers)
+        if verify and invalid_seen and exp_healthy:
+            # a complete clean version plus a share whose signed fields are broken (every survey drops it): whether such
+            # a leftover counts as "a corrupt share" for the verified health is left open
+            ck.skip("verify-health-with-only-a-survey-rejected-share-left-open")
+            return
         w = dict(self.desc, op=op, verify=verify, what=what,
                  inventory={str(v): sorted(s) for v, s in inv.items()}, answered=sorted(servers),
                  reported_healthy=results.is_healthy(), reported_recoverable=results.is_recoverable(),
@@ -599,8 +606,19 @@ class History(object):
                         listed = len(results.get_corrupt_shares())
                     except Exception:
                         listed = -1
-                    key = ("healthy-reported-although-the-verifier-listed-corrupt-shares" if listed > 0 else
-                           "healthy-reported-with-an-unverified-corrupt-copy-of-a-duplicated-share-number")
+                    # is every corrupt share a copy of a share number that the same version also has elsewhere?
+                    corrupt_entries = [(idx, sh, vid) for (idx, sh), (vid, kind) in self.truth.items()
+                                       if idx in servers and kind in DEEP_KINDS + INVALID_KINDS]
+                    all_duplicated = bool(corrupt_entries) and all(
+                        any(sh2 == sh and vid2 == vid and idx2 != idx and idx2 in servers
+                            for (idx2, sh2), (vid2, kind2) in self.truth.items())
+                        for (idx, sh, vid) in corrupt_entries)
+                    if listed > 0:
+                        key = "healthy-reported-although-the-verifier-listed-corrupt-shares"
+                    elif all_duplicated:
+                        key = "healthy-reported-with-an-unverified-corrupt-copy-of-a-duplicated-share-number"
+                    else:
+                        key = "healthy-reported-with-corrupt-shares-the-verifier-did-not-list"
             ck.violation(key, "is_healthy()=%r (%s); valid shares on answering servers {version index: shnums}: %s; "
                          "corrupt shares present: %r" % (results.is_healthy(), w["summary"], w["inventory"], corrupt_seen), w)
         ck.mon("recoverable-oracle")
@@ -811,8 +829,8 @@ class History(object):
 #   c14-newer-unrecoverable-compares-wrong-way   caught  same key
 #   c14-repair-ignores-same-seqnum               caught  unforced-repair-proceeds-despite-same-seqnum-competitors
 #   c14-repair-picks-oldest                      caught  content-after-repair-is-not-the-best-versions
-#   c14-verify-ignores-bad-shares                caught  healthy-reported-despite-fewer-than-n-distinct-shares/verify, ...-no-recoverable-version/verify
+#   c14-verify-ignores-bad-shares                caught  healthy-reported-with-corrupt-shares-the-verifier-did-not-list
 #   c14-repair-reports-success-without-publish   caught  repair-did-not-write-exactly-one-new-version
 #   c14-recoverable-reported-always              caught  recoverable-reported-but-file-is-unrecoverable
-# Violations of the unchanged tree (analysed as genuine, see the report to the lead):
-#   healthy-reported-although-the-verifier-listed-corrupt-shares, healthy-reported-with-an-unverified-corrupt-copy-of-a-duplicated-share-number
+# History: healthy-reported-although-the-verifier-listed-corrupt-shares was fixed in /repo; known finding that remains:
+#   healthy-reported-with-an-unverified-corrupt-copy-of-a-duplicated-share-number
